@@ -233,6 +233,38 @@ def run_mixed(n, seed, acc, tier, checker=None):
     @st.composite
     def case(draw):
         ch = docgen.HypChooser(draw)
+        if ch.chance(.2):
+            # one file, two interchanges of different versions (a 00401 one and a 00501 one, either order): each is read by
+            # the control segments of its own version
+            try:
+                parts = []
+                for icvn in (['00401', '00501'] if ch.chance(.5) else ['00501', '00401']):
+                    pool = mixed_pool(icvn)
+                    e = pool[ch.integer(0, len(pool) - 1)]
+                    kw = dict(p_seg=.3, p_loop=.2, max_rep=2, shape=(1, ch.choice([1, 2]), 1), max_segs=120)
+                    d = None
+                    for attempt in range(5):
+                        try:
+                            d = docgen.build_doc(e, ch, **kw)
+                            break
+                        except docgen.GenFail:
+                            kw = dict(kw, p_loop=0.0)
+                    if d is None:
+                        raise docgen.GenFail('two-version part %s' % e['file'])
+                    parts.append(d)
+            except docgen.GenFail as e:
+                return {'genfail': str(e)[:200]}
+            ctl = '%09d' % (int(parts[0].segs[0].vals[12][0]) % 10 ** 8 + 1)
+            parts[1].segs[0].vals[12] = [ctl]
+            for s_ in parts[1].segs:
+                if s_.id == 'IEA':
+                    s_.vals[1] = [ctl]
+            c = make_case(parts[1], ['two-interchanges-of-different-versions'])
+            c['text'] = parts[0].text() + parts[1].text()
+            c['meta']['file'] = 'two-versions'
+            c['meta']['parts'] = [d.entry['file'] for d in parts]
+            c['meta']['paths_digest'] = None
+            return c
         try:
             doc = build_mixed(ch)
         except docgen.GenFail as e:
